@@ -150,6 +150,24 @@ def run(prog: Program, L: Ledger) -> None:
     check_reinsert(prog, L, "R1")
     mod = f"{prog.package}.utils.atoms"
     sm0 = prog.func(mod, "search_molecules")
+    # R3: the inputs that are not meant to change are not changed — search_molecules' default array / size filter, and the
+    # removed atoms / index list handed to reinsert_atoms (np.asarray / a slice of an argument is the same memory)
+    from ..purity import array_params, inplace_writes
+    from ..normalize import flat as _flat
+
+    L.rule("R3", "search_molecules never writes into its arguments (the supplied default array in particular); reinsert_atoms only changes `atoms`")
+    for fn0, untouched_except in ((sm0, ()), (prog.func(mod, "reinsert_atoms"), ("atoms",))):
+        fn = _flat(prog, fn0, None, keep=(fn0.name,))
+        allp, _arr = array_params(fn0.node)
+        for x in untouched_except:
+            allp.discard(x)
+        ws = inplace_writes(fn.body(), params=allp, direct=allp)
+        for node, al in ws:
+            L.violation("R3", f"{fn0.name}:mutates-argument", f"{fn0.module.relpath}:{node.lineno}",
+                        f"`{norm(node)[:90]}` writes through `{al}`, which may share storage with an argument of {fn0.name} (np.asarray of an ndarray is that array)",
+                        "pass the same ndarray as default twice (two searches with different size filters): labels of the first search survive in the second; the caller's array is changed behind its back", norm(node)[:100])
+        if not ws:
+            L.ok("R3", f"{fn0.name}:arguments-untouched", fn0.where)
 
     # ------------------------------------------------------------------ R2
     from ..normalize import flat
